@@ -23,8 +23,9 @@ TRUSTED_BASE = [
 ]
 ASSUMPTIONS = ["uncertainty relation (V + i Omega >= 0) and Fock PSD are checked by search only, not proved (needs spectral theory)"]
 MANIFEST_TEXT = ("Proved over any commutative ring, all register sizes / targets / parameters: each GaussianModes update (model regenerated each run) keeps "
-                 "N Hermitian with real diagonal and M symmetric; rotation and beam splitter conserve total mean photon number; loss scales the "
-                 "target's photon number by T and leaves others. Uncertainty relation, Fock PSD/trace, bosonic weights: search only (partial).")
+                 "N Hermitian with real diagonal and M symmetric; rotation and beam splitter conserve total mean photon number; loss scales the target's photon "
+                 "number by T and leaves others; the documented gate matrices are symplectic (S Omega S^T = Omega), so V + i Omega is transported by a congruence. "
+                 "Positivity (uncertainty relation), Fock PSD/trace, bosonic weights: search only (partial).")
 
 PASSIVE = ["Rgate", "BSgate", "MZgate", "Fouriergate"]
 UNITARY = list(sfgen.GAUSSIAN_GATES)
